@@ -30,28 +30,41 @@ type m3AllocSpec struct {
 	kind string
 	name string
 	tags map[string]string
+	vals tally.ValueBuckets // kind "hist"
 }
 
-func m3AllocSpecs(r *Rng, n int) []m3AllocSpec {
+func m3AllocSpecs(r *Rng, n int, shared []map[string]string) []m3AllocSpec {
 	out := make([]m3AllocSpec, n)
 	for i := range out {
 		tags := map[string]string{}
 		for k := r.Intn(5); k > 0; k-- {
 			tags[fmt.Sprintf("k%d", r.Intn(6))] = genBytesStr(r, 40)
 		}
-		out[i] = m3AllocSpec{[]string{"counter", "gauge", "timer"}[r.Intn(3)], fmt.Sprintf("m%d.%s", i, genBytesStr(r, 60)), tags}
+		out[i] = m3AllocSpec{kind: []string{"counter", "gauge", "timer"}[r.Intn(3)], name: fmt.Sprintf("m%d.%s", i, genBytesStr(r, 60)), tags: tags}
+		if r.Chance(35) {
+			// a histogram over one of a few tag sets that every goroutine uses (one entry of the reporter's tag cache),
+			// with bounds whose decimal renderings differ in length
+			out[i].kind = "hist"
+			out[i].tags = shared[r.Intn(len(shared))]
+			for k := r.Range(1, 5); k > 0; k-- {
+				out[i].vals = append(out[i].vals, []float64{1, 2.5, 10, 1234.5678, 1e-7, 123456789, 0.001, 99999.125}[r.Intn(8)]*float64(k))
+			}
+		}
 	}
 	return out
 }
 
-func m3AllocSize(rep m3.Reporter, sp m3AllocSpec) int32 {
+// sizes charged for one allocation: one number, or one per bucket for a histogram
+func m3AllocSize(rep m3.Reporter, sp m3AllocSpec) []int32 {
 	switch sp.kind {
 	case "counter":
-		return m3.VerifMetricSize(rep.AllocateCounter(sp.name, sp.tags))
+		return []int32{m3.VerifMetricSize(rep.AllocateCounter(sp.name, sp.tags))}
 	case "gauge":
-		return m3.VerifMetricSize(rep.AllocateGauge(sp.name, sp.tags))
+		return []int32{m3.VerifMetricSize(rep.AllocateGauge(sp.name, sp.tags))}
+	case "hist":
+		return m3.VerifBucketSizes(rep.AllocateHistogram(sp.name, sp.tags, sp.vals))
 	default:
-		return m3.VerifMetricSize(rep.AllocateTimer(sp.name, sp.tags))
+		return []int32{m3.VerifMetricSize(rep.AllocateTimer(sp.name, sp.tags))}
 	}
 }
 
@@ -70,21 +83,28 @@ func runC12Conc(c *Ctx, r *Rng) {
 	must(err)
 	defer rep.Close()
 	nG, per := r.Range(2, 8), r.Range(20, 120)
+	shared := make([]map[string]string, 3)
+	for i := range shared {
+		shared[i] = map[string]string{}
+		for k := r.Range(0, 8); k > 0; k-- {
+			shared[i][fmt.Sprintf("s%d", k)] = genBytesStr(r, 20)
+		}
+	}
 	specs := make([][]m3AllocSpec, nG)
-	want := make([][]int32, nG)
+	want := make([][][]int32, nG)
 	for g := range specs {
-		specs[g] = m3AllocSpecs(r, per)
-		want[g] = make([]int32, per)
+		specs[g] = m3AllocSpecs(r, per, shared)
+		want[g] = make([][]int32, per)
 		for i, sp := range specs[g] {
 			want[g][i] = m3AllocSize(ref, sp)
 		}
 	}
-	got := make([][]int32, nG)
+	got := make([][][]int32, nG)
 	var wg sync.WaitGroup
 	start := make(chan struct{})
 	for g := 0; g < nG; g++ {
 		g := g
-		got[g] = make([]int32, per)
+		got[g] = make([][]int32, per)
 		wg.Add(1)
 		go func() {
 			defer wg.Done()
@@ -99,10 +119,10 @@ func runC12Conc(c *Ctx, r *Rng) {
 	line := fmt.Sprintf("protocol=%v goroutines=%d allocations-each=%d", proto, nG, per)
 	for g := range got {
 		for i := range got[g] {
-			if got[g][i] != want[g][i] {
+			if fmt.Sprint(got[g][i]) != fmt.Sprint(want[g][i]) {
 				sp := specs[g][i]
 				c.Cov.Fail(Failure{Kind: "violated", Clause: "charged-ge-actual", Signature: "c12-concurrent-allocation", Line: line,
-					Reply: fmt.Sprintf("%s %q with %d tags is charged %d bytes when allocated while other goroutines allocate, %d bytes when allocated alone", sp.kind, sp.name, len(sp.tags), got[g][i], want[g][i])})
+					Reply: fmt.Sprintf("%s %q with %d tags is charged %v bytes when allocated while other goroutines allocate, %v bytes when allocated alone", sp.kind, sp.name, len(sp.tags), got[g][i], want[g][i])})
 				return
 			}
 		}
@@ -111,7 +131,7 @@ func runC12Conc(c *Ctx, r *Rng) {
 }
 
 func suiteC12Conc(c *Ctx) {
-	c.Cov.Rule = "2-8 goroutines allocate 20-120 counters / gauges / timers each (names up to 60 bytes, 0-4 tags, boundary lengths) on one M3 reporter at the same time, both protocols; oracle: the size charged to every handle equals the size charged for the same allocation on a fresh reporter with nothing else running; every case nontrivial"
+	c.Cov.Rule = "2-8 goroutines allocate 20-120 counters / gauges / timers / histograms each (names up to 60 bytes, 0-4 tags, boundary lengths; the histograms over three tag sets of 0-8 tags shared by all goroutines, with bounds whose renderings differ in length, charged per bucket) on one M3 reporter at the same time, both protocols; oracle: the size charged to every handle equals the size charged for the same allocation on a fresh reporter with nothing else running; every case nontrivial"
 	n := c.N(25, 400)
 	for i := 0; i < n; i++ {
 		runC12Conc(c, c.Rng.Fork())
